@@ -195,9 +195,9 @@ class CallMixin:
             return [(st, v)]
         if isinstance(v.ty, TRef):
             cls = v.ty.cls
-            new = self.new_object(st, cls)
+            new = self.new_object(st, cls, tag=False)
             # same dynamic class and same field values
-            st.heap['$cls'] = z3.Store(self.cls_array(st), new.t, z3.Select(self.cls_array(st), v.t))
+            st.assume(self.cls_of(new.t) == self.cls_of(v.t))
             for q in self.classes.subclasses(cls):
                 for f, (dc, fty) in self.classes.all_fields(q).items():
                     arr = self.heap_array(st, (dc, f), fty)
